@@ -59,8 +59,10 @@ class Dispatcher(InstructionGenerator):
                     return False
                 elif (
                     membership_id is not None
-                    and not vehicle.membership.grant_access_to_membership_id(membership_id)
+                    and membership_id not in vehicle.membership.memberships
                 ):
+                    # only members of a fleet can serve its requests; any other vehicle would
+                    # be turned away when it tries to enter DispatchTrip
                     return False
 
                 mechatronics = environment.mechatronics.get(vehicle.mechatronics_id)
@@ -83,11 +85,13 @@ class Dispatcher(InstructionGenerator):
 
             def _valid_request(r: Request) -> bool:
                 not_already_dispatched = not r.dispatched_vehicle
-                valid_access = (
-                    r.membership.grant_access_to_membership_id(membership_id)
-                    if membership_id is not None
-                    else True
-                )
+                if membership_id is not None:
+                    valid_access = membership_id in r.membership.memberships
+                elif len(environment.fleet_ids) > 0:
+                    # requests without a membership are open to every vehicle
+                    valid_access = r.membership.public
+                else:
+                    valid_access = True
                 return not_already_dispatched and valid_access
 
             # collect the vehicles and requests for the assignment algorithm
@@ -121,6 +125,8 @@ class Dispatcher(InstructionGenerator):
         if len(environment.fleet_ids) > 0:
             # sorted, so that the instruction order does not depend on set iteration order
             fleet_ids = tuple(sorted(fid for fid in environment.fleet_ids if fid is not None))
+            # followed by the requests that belong to no fleet
+            fleet_ids = fleet_ids + (None,)
         else:
             fleet_ids = (None,)
 
